@@ -260,6 +260,9 @@ theorem lookup_isSome_perm {m m' : NodeRanges} (hp : m.Perm m') (slot : Nat) :
 
 /-! ## `install` -/
 
+theorem redirBudget_isSome (cfg : RouteCfg) (rt : Option Nat) : ∃ t, redirBudget cfg rt = some t := by
+  unfold redirBudget; cases rt <;> exact ⟨_, rfl⟩
+
 theorem sendRemoteDirectly_cases (cfg : RouteCfg) (cm : ClusterMap) (rt : Option Nat) (s : Nat) (a : Addr) :
     sendRemoteDirectly cfg cm rt s a = .errTooManyRedirections ∨
     (∃ w, sendRemoteDirectly cfg cm rt s a = .forward s a w) ∨
